@@ -253,52 +253,47 @@ func ruleRefusals(c *Ctx) []Ob {
 	c.guard(s, pkgDefs, "doParseSlice", "list-element-type", []string{"!rt.V.IsValueType()"}, "non-struct pointer as list/set element", "[]*scalar would be accepted and mis-walked")
 	c.guard(s, pkgDefs, "doParseSlice", "set-or-list", []string{}, "annotation that is neither set nor list", "")
 	c.guard(s, pkgDefs, "ParseType", "whole-annotation", []string{`tok!=""`}, "tokens after a complete type", "annotations such as list<i32>> or `i32 junk` would be accepted")
-	// IsKeyType / IsValueType truth tables
-	if kfd, kp := c.funcDecl(pkgDefs, "Type.IsKeyType"); kfd != nil {
-		trues := map[string]bool{}
-		ptrStruct := false
-		ast.Inspect(kfd, func(n ast.Node) bool {
-			cc, ok := n.(*ast.CaseClause)
-			if !ok {
-				return true
+	// IsKeyType / IsValueType truth tables: the predicates are evaluated for every tag (and, for pointers, for a struct and a
+	// non-struct pointee) over their control-flow graph
+	tags := c.defsTags()
+	tptr, tstruct := tags["T_pointer"], tags["T_struct"]
+	if kf := c.Func(pkgDefs, "(*Type).IsKeyType"); kf != nil && len(tags) > 0 {
+		wantTrue := map[string]bool{"T_bool": true, "T_double": true, "T_enum": true, "T_i16": true, "T_i32": true, "T_i64": true, "T_i8": true, "T_string": true}
+		var wrong []string
+		for name, tv := range tags {
+			if name == "T_pointer" {
+				continue
 			}
-			for _, st := range cc.Body {
-				rs, ok := st.(*ast.ReturnStmt)
-				if !ok || len(rs.Results) != 1 {
-					continue
-				}
-				tv := kp.TypesInfo.Types[rs.Results[0]]
-				for _, e := range cc.List {
-					name := nows(types.ExprString(e))
-					if tv.Value != nil && tv.Value.ExactString() == "true" {
-						trues[name] = true
-					}
-					if name == "T_pointer" && nows(types.ExprString(rs.Results[0])) == "t.V.T==T_struct" {
-						ptrStruct = true
-					}
-				}
+			got := predicateValue(kf, map[string]int64{"T": tv, "V.T": tstruct})
+			if got == triU || (got == triT) != wantTrue[name] {
+				wrong = append(wrong, fmt.Sprintf("%s -> %v", name, got))
 			}
-			return true
-		})
-		var got []string
-		for k := range trues {
-			got = append(got, k)
 		}
-		sort.Strings(got)
-		want := []string{"T_bool", "T_double", "T_enum", "T_i16", "T_i32", "T_i64", "T_i8", "T_string"}
-		s.check(strings.Join(got, ",") == strings.Join(want, ",") && ptrStruct, "IsKeyType:table", c.Pos(kfd.Pos()), "key kinds = scalars, string, enum, pointer-to-struct", "IsKeyType accepts "+strings.Join(got, ",")+fmt.Sprintf(" (pointer only to struct: %v); expected exactly %s and pointer-to-struct", ptrStruct, strings.Join(want, ",")))
+		ps := predicateValue(kf, map[string]int64{"T": tptr, "V.T": tstruct})
+		po := predicateValue(kf, map[string]int64{"T": tptr, "V.T": tags["T_i32"]})
+		if ps != triT || po != triF {
+			wrong = append(wrong, fmt.Sprintf("pointer to struct -> %v, pointer to i32 -> %v", ps, po))
+		}
+		sort.Strings(wrong)
+		s.check(len(wrong) == 0, "IsKeyType:table", c.Pos(kf.Pos()), fmt.Sprintf("key kinds = scalars, string, enum, pointer-to-struct (evaluated for %d tags)", len(tags)), "IsKeyType differs from {bool, i8, i16, i32, i64, double, string, enum, pointer-to-struct}: "+strings.Join(wrong, "; "))
 	} else {
 		s.bad("IsKeyType:table", "-", "IsKeyType not found")
 	}
-	if vfd, _ := c.funcDecl(pkgDefs, "Type.IsValueType"); vfd != nil {
-		okV := false
-		ast.Inspect(vfd, func(n ast.Node) bool {
-			if rs, ok := n.(*ast.ReturnStmt); ok && len(rs.Results) == 1 && nows(types.ExprString(rs.Results[0])) == "t.T!=T_pointer||t.V.T==T_struct" {
-				okV = true
+	if vf := c.Func(pkgDefs, "(*Type).IsValueType"); vf != nil && len(tags) > 0 {
+		var wrong []string
+		for name, tv := range tags {
+			for _, vt := range []int64{tstruct, tags["T_i32"]} {
+				want := tv != tptr || vt == tstruct
+				got := predicateValue(vf, map[string]int64{"T": tv, "V.T": vt})
+				if got == triU || (got == triT) != want {
+					wrong = append(wrong, fmt.Sprintf("%s (pointee struct: %v) -> %v", name, vt == tstruct, got))
+				}
 			}
-			return true
-		})
-		s.check(okV, "IsValueType:table", c.Pos(vfd.Pos()), "values: anything but non-struct pointers", "IsValueType is not `t.T != T_pointer || t.V.T == T_struct`")
+		}
+		sort.Strings(wrong)
+		s.check(len(wrong) == 0, "IsValueType:table", c.Pos(vf.Pos()), "values: anything but non-struct pointers", "IsValueType is not `t.T != T_pointer || t.V.T == T_struct`: "+strings.Join(wrong, "; "))
+	} else {
+		s.bad("IsValueType:table", "-", "IsValueType not found")
 	}
 	// ---- resolver
 	const rf = "DoResolveFields"
@@ -993,3 +988,21 @@ func keysOf(m map[string]bool) []string {
 }
 
 var _ = packages.NeedName
+
+// defsTags: the constants of type defs.Tag, by name.
+func (c *Ctx) defsTags() map[string]int64 {
+	out := map[string]int64{}
+	p := c.ByPath[pkgDefs]
+	if p == nil {
+		return out
+	}
+	sc := p.Types.Scope()
+	for _, n := range sc.Names() {
+		if cn, ok := sc.Lookup(n).(*types.Const); ok && namedOf(cn.Type()) == "Tag" {
+			if v, ok := constant.Int64Val(constant.ToInt(cn.Val())); ok {
+				out[n] = v
+			}
+		}
+	}
+	return out
+}
